@@ -61,13 +61,19 @@ ExpectedSingle(k, a) ==
     [] k = "when"    -> IF T(a[1]) THEN [ticks |-> L(<<1, 2, 3>>), v |-> MkInt(13)] ELSE [ticks |-> L(<<1>>), v |-> Unspec]
     [] k = "unless"  -> IF ~T(a[1]) THEN [ticks |-> L(<<1, 2, 3>>), v |-> MkInt(13)] ELSE [ticks |-> L(<<1>>), v |-> Unspec]
     [] k = "cond"    -> IF T(a[1]) THEN [ticks |-> L(<<1, 2>>), v |-> MkInt(12)]
-                        ELSE IF T(a[3]) THEN [ticks |-> L(<<1, 3, 8>>), v |-> MkList(<<a[3]>>)]
+                        ELSE IF T(a[3]) THEN [ticks |-> L(<<1, 3, 8, 9>>), v |-> MkList(<<a[3]>>)]
                         ELSE [ticks |-> L(<<1, 3, 4>>), v |-> MkInt(14)]
+    [] k = "cond3"   -> IF T(a[1]) THEN [ticks |-> L(<<1, 2>>), v |-> MkInt(12)]
+                        ELSE IF T(a[3]) THEN [ticks |-> L(<<1, 3, 8, 9>>), v |-> MkList(<<a[3]>>)]
+                        ELSE [ticks |-> L(<<1, 3>>), v |-> Unspec]
+    [] k = "case3"   -> IF a[1].v = 1 THEN [ticks |-> L(<<1, 2>>), v |-> MkInt(12)]
+                        ELSE IF a[1].v = 3 THEN [ticks |-> L(<<1, 8, 9>>), v |-> MkList(<<MkInt(3)>>)]
+                        ELSE [ticks |-> L(<<1>>), v |-> Unspec]
     [] k = "cond2"   -> IF T(a[1]) THEN [ticks |-> L(<<1>>), v |-> a[1]]
                         ELSE IF T(a[2]) THEN [ticks |-> L(<<1, 2, 8, 3>>), v |-> MkInt(13)]
                         ELSE [ticks |-> L(<<1, 2>>), v |-> Unspec]
     [] k = "case"    -> IF a[1].v = 1 THEN [ticks |-> L(<<1, 2>>), v |-> MkInt(12)]
-                        ELSE IF a[1].v = 3 THEN [ticks |-> L(<<1, 8>>), v |-> MkList(<<MkInt(3)>>)]
+                        ELSE IF a[1].v = 3 THEN [ticks |-> L(<<1, 8, 9>>), v |-> MkList(<<MkInt(3)>>)]
                         ELSE [ticks |-> L(<<1, 3, 4>>), v |-> MkInt(14)]
     [] k = "case2"   -> IF a[1].v = 1 THEN [ticks |-> L(<<1, 2>>), v |-> MkInt(12)]
                         ELSE IF a[1].v = 3 THEN [ticks |-> L(<<1, 3>>), v |-> MkInt(13)]
